@@ -390,10 +390,10 @@ void replace_macro(int i) {
   char *macro = tok_list[i].str;
   // printf("replacing macro '%s'\n", macro);
   i++;
-  while (tok_list[i].kind == TOK_WS)
+  while (i < toks && tok_list[i].kind == TOK_WS)
     i++;
   int end = i;
-  while (tok_list[end].kind != TOK_NEWLINE)
+  while (end < toks && tok_list[end].kind != TOK_NEWLINE)
     end++;
   int x;
   for (x = 0; x < toks; ++x) {
@@ -414,13 +414,17 @@ void define(int tok_index) {
   for (i = 0; i < toks; ++i) {
     if (strcmp(tok_list[i].str, "#") == 0) {
       i++;
-      while (tok_list[i].kind == TOK_WS)
+      while (i < toks && tok_list[i].kind == TOK_WS)
         i++;
+      if (i >= toks)
+        break;
       if (strcmp(tok_list[i].str, "define") != 0)
         continue;
       i++;
-      while (tok_list[i].kind == TOK_WS)
+      while (i < toks && tok_list[i].kind == TOK_WS)
         i++;
+      if (i >= toks)
+        break;
       int j;
       int used = 0;
       for (j = 0; j < toks; ++j)
